@@ -175,9 +175,9 @@ func c08Gen(K int) func(t *rapid.T) c08Case {
 func TestC08(t *testing.T) {
 	ev.Check(t, "c08_entropy", ev.N(8000, 60000), c08Gen(ev.Pick(24, 100)), c08Run)
 	// big lists: every word counts, wherever map iteration happens to put it
-	ev.Check(t, "c08_big_lists", ev.N(16, 160), func(t *rapid.T) c08Case {
+	ev.Check(t, "c08_big_lists", ev.N(32, 320), func(t *rapid.T) c08Case {
 		return c08Case{W: gen.WLSpec{Length: rapid.IntRange(2, 6).Draw(t, "len"), Scheme: rapid.SampledFrom([]string{"random", "one"}).Draw(t, "scheme"),
-			Sep: gen.SepSpec{Kind: "const", Const: ""}}, Calls: rapid.IntRange(1000, 1100).Draw(t, "size")}
+			Sep: gen.SepSpec{Kind: "const", Const: ""}}, Calls: rapid.IntRange(1016, 1100).Draw(t, "size")}
 	}, func(c c08Case) error {
 		n := c.Calls
 		words := make([]string, 0, n+1)
@@ -187,7 +187,7 @@ func TestC08(t *testing.T) {
 		words = append(words, "4") // the only word that does not change under title-casing
 		kept := oracle.Kept(words)
 		want := oracle.WLEntropy(c.W.Length, kept, c.W.Scheme, 0)
-		for k := 0; k < 40; k++ {
+		for k := 0; k < 600; k++ {
 			// rotate the input: the same word set every time
 			rot := append(append([]string{}, words[k*7%len(words):]...), words[:k*7%len(words)]...)
 			wl, err := spg.NewWordList(rot)
